@@ -114,6 +114,8 @@ def plan_C15(ctx):
     cfg = "Gen_C15_q.cfg" if ctx.quick else "Gen_C15_t.cfg"
     ctx.constants = {"cfg": open(os.path.join(vcore.TLA, cfg)).read().split("SPECIFICATION")[0].split()}
     ctx.replay("Gen_C15.tla", cfg, h, xss="64m", timeout=3000)
+    # the same families over element identifiers that are more than 2^31 apart (IdOf <- WideId)
+    ctx.replay("Gen_C15.tla", cfg[:-4] + "w.cfg", h, tag=cfg[:-4] + "w", xss="64m", timeout=3000)
     ctx.exhaustive = True
     trace_stage(ctx, h, ["--record", str(400 if ctx.quick else 6000)], "Trace_C15.tla", "Trace_C15.cfg")
 
